@@ -535,6 +535,16 @@ func (it *interp) bindParams() {
 			o.Leaf, o.Param = leaf, i
 			it.params = append(it.params, o)
 			it.env[p] = ptr{o: o, idx: -1}
+		case *types.Basic:
+			if u.Kind() == types.UnsafePointer {
+				o := it.newObj(leaf.Op, p.Type())
+				o.Leaf, o.Param, o.Flat = leaf, i, true
+				it.params = append(it.params, o)
+				it.env[p] = ptr{o: o, idx: -1}
+				continue
+			}
+			it.params = append(it.params, nil)
+			it.env[p] = tv{leaf}
 		default:
 			it.params = append(it.params, nil)
 			it.env[p] = tv{leaf}
